@@ -9,6 +9,7 @@ CONSTANTS
   MaxLen = 4
   MaxText = 5
   Rtl = 0
+  NFeat = 0
   Ops <- OpsAll
   Emit = TRUE
 INVARIANTS TypeOK StreamOK EmitDone
